@@ -306,7 +306,7 @@ def ctor_cases():
         "Coupling|conditional_transformer": lambda: B.Coupling(k, transformer=AC((), (2,)), untransformed_dim=1, dim=3, nn_width=2, nn_depth=1),
         "MAF|vector_transformer": lambda: B.MaskedAutoregressive(k, transformer=A((1,)), dim=3, nn_width=2, nn_depth=1),
         "MAF|conditional_transformer": lambda: B.MaskedAutoregressive(k, transformer=AC((), ()), dim=3, nn_width=2, nn_depth=1),
-        "RQS|softmax_adjust_negative": lambda: B.RationalQuadraticSpline(knots=3, interval=1, softmax_adjust=-0.1),
+        "RQS|softmax_adjust_negative": lambda: B.RationalQuadraticSpline(knots=3, interval=1, softmax_adjust=-0.1).transform(0.5),
         "Planar|negative_slope_zero": lambda: B.Planar(k, dim=2, negative_slope=0.0).transform(jnp.ones(2)),
         "Planar|negative_slope_negative": lambda: B.Planar(k, dim=2, negative_slope=-0.5).transform(jnp.ones(2)),
         "Inverter|lower_ge_upper": lambda: AutoregressiveBisectionInverter(lower=1.0, upper=1.0),
